@@ -779,6 +779,7 @@ pub fn supervise(engine: &dyn Engine, tier: Tier, vseed: u64) -> RunOutcome {
         ));
     }
     let mut aborted_nonviolation = 0u64;
+    let mut aborted_list: Vec<Value> = vec![];
     for (k, kind) in &crashes {
         if let Some(id) = engine.known_finding_crash(*k, case_seed(vseed, prop, *k), tier, kind) {
             if known.contains_key(id) {
@@ -787,7 +788,21 @@ pub fn supervise(engine: &dyn Engine, tier: Tier, vseed: u64) -> RunOutcome {
             }
         }
         if !info.totality {
+            // the system under test crashed or hung on a case of a property that is
+            // not about totality: the case cannot be judged. Counted, listed in the
+            // evidence and kept as a regenerating replay file for diagnosis.
             aborted_nonviolation += 1;
+            if aborted_list.len() < 8 {
+                let path = replay_dir.join(format!("{prop}-{vseed}-{k}-aborted-{kind}.json"));
+                let doc = json!({
+                    "property": prop, "engine": info.engine, "verif_seed": vseed, "tier": tier.name(),
+                    "case_index": k, "class": kind,
+                    "detail": format!("worker process {kind} while running this case (not judged: {prop} is not a totality property)"),
+                    "case": Value::Null,
+                });
+                let _ = std::fs::write(&path, serde_json::to_string_pretty(&doc).unwrap());
+                aborted_list.push(json!({"case_index": k, "kind": kind, "replay": path.display().to_string()}));
+            }
             continue;
         }
         n_viol += 1;
@@ -848,6 +863,7 @@ pub fn supervise(engine: &dyn Engine, tier: Tier, vseed: u64) -> RunOutcome {
         json!(stats.get("sim_time_us") as f64 / 1e6),
     );
     cov.insert("aborted_cases".into(), json!(aborted_nonviolation));
+    cov.insert("aborted_case_list".into(), json!(aborted_list));
     cov.insert("harness_errors".into(), json!(harness_errors.len()));
     cov.insert("known_findings_hit".into(), json!(known_hit));
     cov.insert("real_components".into(), json!(info.real_components));
